@@ -245,7 +245,7 @@ func (v *verifInputs) determined(instance uint64) bool {
 // two nodes with different heads and clocks.
 func VerifC15_Committee() {
 	ctx := context.Background()
-	k := sym.Choice("certificates", 4)
+	k := sym.Choice("certificates", 3+sym.Tier())
 	v := newVerifInputs(k)
 	last := 0
 	if k > 0 {
@@ -329,9 +329,9 @@ func VerifC15_Proposal() {
 	ctx := context.Background()
 	k := sym.Choice("certificates", 3)
 	v := newVerifInputs(k)
-	hl := sym.Choice("head-lookback", 3)
-	cpl := 1 + sym.Choice("chain-proposed-length-minus-1", 3+sym.Tier())
-	if cpl == 3+sym.Tier() {
+	hl := sym.Choice("head-lookback", 2+sym.Tier())
+	cpl := 1 + sym.Choice("chain-proposed-length-minus-1", 2+2*sym.Tier())
+	if cpl == 2+2*sym.Tier() {
 		cpl = 1000 // beyond the protocol maximum
 	}
 	v.in.manifest.EC.HeadLookback = hl
